@@ -129,6 +129,7 @@ var deanchored = []string{
 	"(*" + modulePath + "/internal/server.Buffer).discardSpill",
 	"(*" + modulePath + "/internal/server.Router).findOrCreateService",
 	"(*" + modulePath + "/internal/cmd.listCommand).displayResponse",
+	"(*" + modulePath + "/internal/server.Router).writeStateFile",
 	"(*" + modulePath + "/internal/server.Buffer).writeToMemory",
 	"(*" + modulePath + "/internal/server.Buffer).writeToDisk",
 	"(*" + modulePath + "/internal/server.TargetOptions).canonicalizeLogHeaders",
